@@ -373,6 +373,11 @@ def install(state, spec):
             rec["new"] = tt.add(new)
             rec["old_str"] = str(old)
             rec["new_str"] = None if new is None else str(new)
+            if new is not None:
+                # the real relation tests on the very objects (ground truth for `unrelated`)
+                rec["rel_impl"] = [_safe(lambda: bool(old.is_subtype(new))), _safe(lambda: bool(new.is_subtype(old))),
+                                   _safe(lambda: bool(old.is_assignable(new))), _safe(lambda: bool(new.is_assignable(old)))]
+                rec["old_cls"], rec["new_cls"] = type(old).__name__, type(new).__name__
         rec["tt"] = tt.entries
         state["overwrite"] = rec
         return res
